@@ -27,8 +27,11 @@ META = {
             'paging, custom payload from statement and execute(), tracing, compression, beta flag, stream id) is built through '
             'the real session-layer code, encoded as Connection.send_msg does and parsed by vt.spec.frames.parse_request '
             '(header length = body length, no trailing bytes, flag widths and fields per version); parsed fields must equal the '
-            'request, and combinations a version cannot carry must raise. quick: full product of the body options x a star of '
-            'frame options (each alone + all together); thorough: full product of both.',
+            'request, and combinations a version cannot carry must raise. thorough: full product of body options x full product of '
+            'frame options; quick: options without six interior symbols (timestamp 0, fetch size 1, empty query, 16-byte id, stream '
+            'ids 1 and 128, two-entry payload), '
+            'full product of them x a star of frame options (default, each value alone, all together), and must-reject cases '
+            'only where the remaining body options form a star.',
     'note': 'Trusted base: vt/spec/frames.py (written from the protocol specifications; DSE_V1/V2 layouts from DataStax\'s public '
             'notes). The session object handed to Session._create_response_future is a stub carrying only the attributes that '
             'method reads. Compression uses a stand-in codec (the compressor is a parameter of encode_message).',
@@ -89,7 +92,8 @@ def streams(v):
     return [0, 1, 127] if v in (1, 2) else [0, 1, 127, 128, 32767]
 
 
-QUICK_DROPPED = {'ts': ('zero',), 'fetch': ('one',), 'query': ('empty',), 'qid': ('md5',)}
+QUICK_DROPPED = {'ts': ('zero',), 'fetch': ('one',), 'query': ('empty',), 'qid': ('md5',),
+                 'stream': (1, 128), 'payload_exec': ('two',)}
 
 
 def axes(kind, v, tier='thorough'):
@@ -98,8 +102,9 @@ def axes(kind, v, tier='thorough'):
     fr, body = _axes(kind, v)
     if tier == 'quick':
         for k, drop in QUICK_DROPPED.items():
-            if k in body:
-                body[k] = [x for x in body[k] if x not in drop]
+            for ax in (fr, body):
+                if k in ax:
+                    ax[k] = [x for x in ax[k] if x not in drop]
     return fr, body
 
 
@@ -490,7 +495,7 @@ _SLUG = re.compile(r'[a-z]+')
 
 
 def slug(text, n=4):
-    return '-'.join(_SLUG.findall(text.lower())[:n])
+    return '-'.join(_SLUG.findall(re.sub(r'0x[0-9a-f]+|\d+', ' ', text.lower()))[:n])
 
 
 def evaluate(env, kind, v, case):
@@ -633,6 +638,7 @@ def run_chunk(args):
     kind, v, tier, idx, nslices = args
     env = Env.get()
     part = Part()
+    seen_fp = set()
     fr, body = axes(kind, v, tier)
     frames_ = frame_star(fr) if tier == 'quick' else frame_full(fr)
     i = -1
@@ -663,8 +669,12 @@ def run_chunk(args):
                 part.count('frames_parsed')
             for clause, detail, what in problems:
                 trig = trigger(env, kind, v, case, clause, detail)
-                part.violation('C03/%s/%s/%s/%s' % (kind, clause, detail, trig),
-                               '%s on protocol version %s with options %r: %s' % (kind, hex(v) if v > 6 else v, case, what),
+                fp = 'C03/%s/%s/%s/%s' % (kind, clause, detail, trig)
+                if fp in seen_fp:
+                    part.count('violating_cases')
+                    continue
+                seen_fp.add(fp)
+                part.violation(fp, '%s on protocol version %s with options %r: %s' % (kind, hex(v) if v > 6 else v, case, what),
                                {'kind': kind, 'version': v, 'case': case})
             if frame is not None and not problems and len(pf) >= 3:
                 part.sample({'kind': kind, 'version': v, 'case': case, 'frame': frame.hex()}, limit=1)
